@@ -14,8 +14,8 @@ Which control forms mako admits (lexer ternary table + `PythonFragment` keyword 
 `if / elif* / else?`, `for / else?`, `while` (no `else`), `try / except+` (no `else`, **no `finally`**: the lexer
 accepts `% finally:` as a ternary of `try` but `PythonFragment` rejects the keyword), `with`.
 
-Four statements of the design are false of the code as they stand and appear as `_partial` + `_counterexample`:
-`printer_adequate` (a second `% except` clause is not unindented), `auto_pass_sufficient` (a suite holding only a
+Three statements of the design are false of the code as they stand and appear as `_partial` + `_counterexample`
+(`printer_adequate` was a fourth until /repo 1cb10d7 put `except` into `_re_compound`): `auto_pass_sufficient` (a suite holding only a
 `<%def>` or `<%! %>` gets no `pass`), `stop_rendering_keeps_output` (`return` inside a buffered or filtered def
 loses the content), and `fragment_headerOk` (`PythonFragment` strips / accepts more whitespace than `_re_indent`).
 -/
@@ -32,12 +32,12 @@ abbrev Str := List Char
     after a suite unless a continuation clause follows) raises nothing, ends in the initial state, and what it
     wrote, read back by the offside rule, is `P` again.
 
-    PARTIAL – guard inside `good`: a continuation clause (`else / elif / except / finally`) directly follows a
-    suite whose header keyword is in `_re_compound` (`if try elif while for with`).
-
-    OPEN (full statement, false: `printer_adequate_counterexample`): the same with `wellFormed none P`, i.e. a
-    continuation clause may follow *any* header – in particular `except B:` after `except A:`. -/
-theorem printer_adequate_partial (P : Prog) (hg : good none P = true) (hne : suitesNonEmpty P = true) :
+    Full strength since /repo 1cb10d7 (`except` in `_re_compound`; formerly finding F-C03-1).  The condition left
+    inside `good` – a continuation clause (`else / elif / except / finally`) directly follows a suite whose header
+    is in `_re_compound` = `if try elif while for with except` – excludes exactly the programs in which a clause
+    follows an `else`, `finally`, `def` or `class` header (`continuation_after_final_clause`), which Python's
+    grammar excludes as well: `else` and `finally` are final clauses. -/
+theorem printer_adequate (P : Prog) (hg : good none P = true) (hne : suitesNonEmpty P = true) :
     printed P = ⟨0, [], layout 0 P, false⟩ ∧ parseIndent (printed P).out = some (unraw P) := by
   have h := printed_layout P hg
   exact ⟨h, by rw [h]; exact parseIndent_layout P hne⟩
@@ -54,18 +54,22 @@ def sampleProg : Prog :=
 
 example : good none sampleProg = true ∧ suitesNonEmpty sampleProg = true := by decide +kernel
 
-/-- `try:` / `except A:` / `except B:` – valid Python, admitted by the lexer and by `PythonFragment` – is written
-    with the second `except` inside the suite of the first: the first `except` pushes `None` on `indent_detail`
-    (it is not in `_re_compound`), so `_is_unindentor` answers False for the second. -/
-def twoExcepts : Prog :=
+/-- the headers after which `good` allows no continuation clause are those after which Python allows none -/
+theorem continuation_after_final_clause (h : Str) (hh : HeaderOk h = true) (hc : isCompound h = false) :
+    ∃ k, k ∈ ["def".toList, "class".toList, "else".toList, "finally".toList] ∧ startsWith (lskip h) k = true :=
+  header_not_compound hh hc
+
+example : HeaderOk "else: # c".toList = true ∧ isCompound "else: # c".toList = false := by decide +kernel
+
+/-- `try:` / `except A:` / `except B:` / `except:` – several clauses (the witness of the former F-C03-1) -/
+def threeExcepts : Prog :=
   .comp "try:".toList (.line false "__M_writer('a')".toList .nil)
     (.comp "except A:".toList (.line false "__M_writer('b')".toList .nil)
-      (.comp "except B:".toList (.line false "__M_writer('c')".toList .nil) .nil))
+      (.comp "except B:".toList (.line false "__M_writer('c')".toList .nil)
+        (.comp "except:".toList (.line false "__M_writer('d')".toList .nil) .nil)))
 
-theorem printer_adequate_counterexample :
-    wellFormed none twoExcepts = true ∧ suitesNonEmpty twoExcepts = true ∧
-      (printed twoExcepts).out.map (·.1) = [0, 1, 0, 1, 1, 2] ∧
-      parseIndent (printed twoExcepts).out ≠ some (unraw twoExcepts) := by decide +kernel
+example : good none threeExcepts = true ∧ suitesNonEmpty threeExcepts = true ∧
+    (printed threeExcepts).out.map (·.1) = [0, 1, 0, 1, 0, 1, 0, 1] := by decide +kernel
 
 /-- **What `PythonFragment` admits, the printer treats as a header** (it has text, is no comment, matches
     `_re_indent` and one of the two keyword tables) – so the lines of `% if/elif/else/for/while/try/except/with`
@@ -182,14 +186,15 @@ example : lexCtl " \t %  if x:\nfoo".toList = some (false, "if x:".toList) ∧
     are the flat emission of `structOf t`, the printer writes it with that structure's indentation and ends in the
     state it started in, and the written lines read back as `structOf t`.
 
-    PARTIAL (inherits both guards): `ctOk true` – a ternary line follows only `if/elif/for/try/…` headers (not
-    `except`/`else`); `noSilent` – no suite consists of nodes that write nothing. -/
+    PARTIAL – guard `noSilent`: no suite consists of nodes that write nothing (F-C03-2).  `ctOk true` holds the
+    shape conditions: lines are `LineOk` / `HeaderOk`, and no ternary line follows an `% else:` – which is Python's
+    grammar (mako's lexer would let `% if / % else / % elif` through; that is no Python statement). -/
 theorem codegen_indentation_partial (el : Bool) (t : CT) (hok : ctOk true el t = true) (hn : noSilent t = true)
     (hf : forOk el t = true) :
     run PS.init (emitCT el t) = ⟨0, [], layout 0 (structOf el t), false⟩ ∧
       parseIndent (run PS.init (emitCT el t)).out = some (unraw (structOf el t)) := by
   have he := emit_structOf true el t hok
-  have h := printer_adequate_partial (structOf el t) (good_structOf el t hok) (suites_structOf el t hn hf)
+  have h := printer_adequate (structOf el t) (good_structOf el t hok) (suites_structOf el t hn hf)
   simp only [printed, he] at h
   exact h
 
